@@ -618,8 +618,12 @@ class VLE(Equilibrium, phases='lg'):
             split_frac = 1
         elif split_frac < 0:
             split_frac = 0
-        self._vapor_mol[self._index] = v = self._F_mol * split_frac * y
-        self._liquid_mol[self._index] = self._mol_vle - v
+        v = self._F_mol * split_frac * y
+        mol_vle = self._mol_vle
+        mask = v > mol_vle
+        v[mask] = mol_vle[mask]
+        self._vapor_mol[self._index] = v
+        self._liquid_mol[self._index] = mol_vle - v
     
     def set_Tx(self, T, x):
         self._setup()
